@@ -17,8 +17,8 @@ ASSUMPTIONS = [
     "generators have distinct priorities per path (ties are not specified)",
     "the device file differ is annet.diff.UnifiedFileDiffer (the shipped default implementation), PC hardware, software string without Cumulus/SONiC",
 ]
-FLOORS = {"quick": {"listing_orders": 3000, "jobs_parsed": 3000, "shared_paths": 500, "forced_runs": 500, "diffs_checked": 1500, "cases_with_unsupported_generators": 400},
-          "thorough": {"listing_orders": 120000, "jobs_parsed": 120000, "shared_paths": 20000, "forced_runs": 20000, "diffs_checked": 60000, "cases_with_unsupported_generators": 15000}}
+FLOORS = {"quick": {"listing_orders": 3000, "jobs_parsed": 3000, "shared_paths": 500, "forced_runs": 500, "diffs_checked": 1500, "cases_with_unsupported_generators": 400, "safe_mode_jobs": 2000, "safe_mode_jobs_with_empty_safe_set": 200},
+          "thorough": {"listing_orders": 120000, "jobs_parsed": 120000, "shared_paths": 20000, "forced_runs": 20000, "diffs_checked": 60000, "cases_with_unsupported_generators": 15000, "safe_mode_jobs": 80000, "safe_mode_jobs_with_empty_safe_set": 8000}}
 PATHS = ["/etc/a.conf", "/etc/b/b.conf", "/etc/c"]
 KNOWN_NL = "C19/upload-decision-blind-to-trailing-newline"
 KNOWN_EMPTY = "C19/upload-decision-blind-to-missing-vs-empty"
@@ -191,6 +191,30 @@ def check_case(seed, acc, unsupported=False):
                 if not dc["cmds"][p].decode().startswith(first_new[p][1]):
                     acc.violation("C19/wrong-reload-command", "the reload command attached to a file is not the winning generator's", dict(w, mode=str(mode), path=p))
                     return
+        # --acl-safe: only the files whose winning generator is marked safe are considered at all (possibly none)
+        safe_new = {p: (g["output"], g["reload"]) for p, g in exp.items() if g["safe"]}
+        job = api.PCDeployerJob(dev, types.SimpleNamespace(acl_safe=True, entire_reload=cli_args.EntireReloadFlag.yes))
+        try:
+            job.parse_result(OldNewResult(device=dev, old_files=dict(old), new_files=dict(first_new), safe_new_files=dict(safe_new)))
+        except Exception as e:
+            acc.violation("C19/job-exception/%s" % type(e).__name__, "PCDeployerJob.parse_result raised in safe mode", dict(w, error=repr(e)[:200]))
+            return
+        acc.count("safe_mode_jobs")
+        if not safe_new:
+            acc.count("safe_mode_jobs_with_empty_safe_set")
+        dc = job.deploy_cmds.get(dev, {"files": {}, "cmds": {}})
+        unsafe_up = sorted(set(dc["files"]) - set(safe_new))
+        if unsafe_up:
+            acc.violation("C19/unsafe-file-uploaded-in-safe-mode", "with --acl-safe a file whose winning generator is not marked safe is uploaded",
+                          dict(w, uploaded=sorted(dc["files"]), safe_paths=sorted(safe_new)))
+            return
+        want_safe_files = {p: c.encode() for p, (c, r) in safe_new.items() if old.get(p) != c}
+        if dc["files"] != want_safe_files:
+            missing = set(want_safe_files) - set(dc["files"])
+            if not (missing and all((old.get(p) or "").splitlines() == safe_new[p][0].splitlines() for p in missing) and not (set(dc["files"]) - set(want_safe_files))):
+                acc.violation("C19/wrong-upload-set-in-safe-mode", "with --acl-safe the upload set is not the changed files of safe winning generators",
+                              dict(w, uploaded={p: v.decode() for p, v in dc["files"].items()}, expected={p: v.decode() for p, v in want_safe_files.items()}))
+                return
     finally:
         AD.get_deployer = orig
     # shown diff
